@@ -15,7 +15,9 @@ import traceback
 VERIF = os.path.dirname(os.path.dirname(os.path.abspath(__file__)))
 REPLAYS = os.path.join(VERIF, "replays")
 # VERIF_ONLY=<regex>: development aid, explores only the matching skeletons and keeps the partial evidence out of /verif
-EVID = os.path.join(VERIF, "evidence") if not os.environ.get("VERIF_ONLY") else "/tmp/verif-partial-evidence"
+# VERIF_EVIDENCE_DIR: used by bin/seedcheck.sh so that runs on a deliberately broken tree do not overwrite the evidence
+EVID = os.environ.get("VERIF_EVIDENCE_DIR") or (
+    os.path.join(VERIF, "evidence") if not os.environ.get("VERIF_ONLY") else "/tmp/verif-partial-evidence")
 KNOWN = os.path.join(VERIF, "known_findings.json")
 EXIT_HARNESS = 2
 
@@ -101,6 +103,14 @@ class SymCtx(Ctx):
     def choose(self, n):
         return self.ex.choose(n)
 
+    def choose_recorded(self, n):
+        """nondeterministic choice that is part of the counterexample (replayed natively)"""
+        k = self.ex.choose(n)
+        if not hasattr(self.ex, "named_choices"):
+            self.ex.named_choices = []
+        self.ex.named_choices.append(k)
+        return k
+
 
 class NativeCtx(Ctx):
     mode = "native"
@@ -143,6 +153,13 @@ class NativeCtx(Ctx):
 
     def choose(self, n):
         return 0
+
+    def choose_recorded(self, n):
+        ch = self.env.get("__choices__")
+        if ch is None:
+            return 0
+        self._nchoice = getattr(self, "_nchoice", 0) + 1
+        return ch[self._nchoice - 1] if self._nchoice <= len(ch) else 0
 
 
 class ShimCtx(NativeCtx):
